@@ -1,8 +1,80 @@
-/- line-protocol handlers for C10 (stub: not built yet) -/
+/- line-protocol handlers for C10 (seed flow) -/
 import Driver.Loop
+import NumqiModel.SeedFlow
+import NumqiModel.Generated.SeedPrograms
 
 namespace Numqi.Driver.C10
+open Numqi Numqi.SeedFlow
 
-def handle (_args : List String) : String := "bad-op"
+def progs : List Prog := Generated.programs
+def names : List String := Generated.names
+
+def findIdx? (name : String) : Option Nat :=
+  let i := names.idxOf name
+  if i < names.length then some i else none
+
+/-- callees of a program -/
+def callees : Prog → List Nat
+  | .done => []
+  | .mkRng _ _ k => callees k
+  | .draw _ k => callees k
+  | .drawGlobal _ k => callees k
+  | .call f _ k => f :: callees k
+  | .unknownCall k => callees k
+  | .branch _ t e k => callees t ++ callees e ++ callees k
+  | .loop _ b k => callees b ++ callees k
+
+/-- programs reachable from `i` through calls (breadth first, `fuel` rounds) -/
+def reach : Nat → List Nat → List Nat
+  | 0, seen => seen
+  | fuel + 1, seen =>
+    let next := (seen.flatMap fun j => callees (progs.getD j .done)).filter fun j => !seen.contains j
+    if next.isEmpty then seen else reach fuel (seen ++ next.eraseDups)
+
+/-- closed together with everything it calls (what the behaviour of the real function reflects) -/
+def tclosed (i : Nat) : Bool := (reach progs.length [i]).all fun j => seedClosed progs.length (progs.getD j .done)
+
+def listStr (l : List Nat) : String := ",".intercalate (l.map toString)
+
+def handle (args : List String) : String :=
+  match args with
+  | ["count"] => toString progs.length
+  | ["closed", name] =>
+      match findIdx? name with
+      | none => "unknown-program"
+      | some i => if seedClosed progs.length (progs.getD i .done) then "1" else "0"
+  | ["tclosed", name] =>
+      match findIdx? name with
+      | none => "unknown-program"
+      | some i => if tclosed i then "1" else "0"
+  | ["norm", lib, kind] => Id.run do
+      -- what `normalise` does with None / an int / a generator (`lib` only names the Python normaliser family)
+      if lib ≠ "numpy" && lib ≠ "python" then return "bad-op"
+      let st0 : St := { heap := [5], gNumpy := 1, gPython := 2, gTorch := 3, entropy := 10, trace := [] }
+      let st1 : St := { st0 with entropy := 11 }
+      match kind with
+      | "none" =>
+          let a := normalise lcg .none st0; let b := normalise lcg .none st1
+          return if a.2.heap ≠ b.2.heap && a.1 = st0.heap.length then "fresh" else "repeats"
+      | "int" =>
+          let a := normalise lcg (.int 12345) st0; let b := normalise lcg (.int 12345) st1; let c := normalise lcg (.int 12346) st0
+          return if a.2.heap = b.2.heap && a.2.heap ≠ c.2.heap && a.1 = st0.heap.length then "seeded" else "not-a-function-of-the-int"
+      | "gen" =>
+          let a := normalise lcg (.ref 0) st0
+          return if a.1 = 0 && a.2.heap = st0.heap then "same" else "different-object"
+      | _ => return "bad-op"
+  | ["run", name, k, gN, gP, gT, ent, salt, fuel] => Id.run do
+      let some i := findIdx? name | return "unknown-program"
+      let some k := k.toNat? | return "bad-op"
+      let some gN := gN.toNat? | return "bad-op"
+      let some gP := gP.toNat? | return "bad-op"
+      let some gT := gT.toNat? | return "bad-op"
+      let some ent := ent.toNat? | return "bad-op"
+      let some salt := salt.toNat? | return "bad-op"
+      let some fuel := fuel.toNat? | return "bad-op"
+      let st : St := { heap := [], gNumpy := gN, gPython := gP, gTorch := gT, entropy := ent, trace := [] }
+      let out := SeedFlow.run lcg progs (demoOracle salt) fuel i k st
+      return s!"{listStr out.heap}|{listStr out.trace}"
+  | _ => "bad-op"
 
 end Numqi.Driver.C10
